@@ -5,6 +5,7 @@ CONSTANTS
   Statuses <- @@STATUSES@@
   Forms <- @@FORMS@@
   Methods <- @@METHODS@@
+  Origins <- @@ORIGINS@@
   MaxSet = @@MAXSET@@
   MaxHops = @@MAXHOPS@@
   NSamples = @@NSAMPLES@@
